@@ -41,6 +41,8 @@ func init() {
 			ruleGroupOptionOrder(c, "R8")
 			ruleSummaryByBuilder(c, "R6b")
 			ruleCORSOptionPlumbing(c, "R9")
+			ruleInternalKeyIsNotAMethod(c, "R10")
+			ruleListHeaderReadCompletely(c, "R11")
 		},
 	})
 	register(&Spec{
@@ -302,11 +304,28 @@ func isHeaderGet(v ssa.Value, name string) bool {
 		}
 		return true
 	}
-	if an.CalleeName(&call.Call) != "net/http.Header.Get" {
+	if n := an.CalleeName(&call.Call); n != "net/http.Header.Get" && n != "net/http.Header.Values" {
 		return false
 	}
 	s, ok := strConst(call.Call.Args[1])
 	return ok && s == name
+}
+
+// requestHeaderRead: the instruction reads a request header by constant name (Get: first line, Values: all lines).
+func requestHeaderRead(in ssa.Instruction) (name string, all bool, ok bool) {
+	call, isCall := in.(*ssa.Call)
+	if !isCall {
+		return "", false, false
+	}
+	n := an.CalleeName(&call.Call)
+	if n != "net/http.Header.Get" && n != "net/http.Header.Values" {
+		return "", false, false
+	}
+	s, isC := strConst(call.Call.Args[1])
+	if !isC || isResponseHeaderMap(call.Call.Args[0]) {
+		return "", false, false
+	}
+	return s, n == "net/http.Header.Values", true
 }
 
 // ruleOriginGrant is C11.R1.
@@ -1027,10 +1046,8 @@ func ruleVary(c *Ctx, rule string) {
 	reads := map[string]string{}
 	for _, f := range an.SortedFuncs(reach) {
 		an.AllInstrs(f, func(in ssa.Instruction) {
-			if call, ok := in.(*ssa.Call); ok && an.CalleeName(&call.Call) == "net/http.Header.Get" {
-				if s, ok := strConst(call.Call.Args[1]); ok && !isResponseHeaderMap(call.Call.Args[0]) {
-					reads[s] = c.pos(in)
-				}
+			if s, _, ok := requestHeaderRead(in); ok {
+				reads[s] = c.pos(in)
 			}
 		})
 	}
